@@ -320,6 +320,9 @@ class Body:
         self.argc = raw["argc"]
         self.locals = raw["locals"]
         self.vars = raw["vars"]
+        if os.environ.get("SWIMVERIFY_ALPHA") == "1":
+            # self-test: forget the names of let-bound locals (alpha-renaming must not change any verdict); parameters keep theirs
+            self.vars = [(n, p) for n, p in raw["vars"] if (not p[1] and 1 <= p[0] <= raw["argc"]) or p[1]]
         self._calls = None
         self._defs = None
         self._mutb = None
